@@ -406,14 +406,18 @@ fn gen_lag_pattern(rng: &mut Rng, n: usize) -> Vec<J> {
     while stale == del { stale = NAMES[rng.below(n as u64) as usize]; }
     let victim = rng.range(1, 2);
     if rng.chance(3, 4) { v.push(json!({"op":"setdn","r":stale,"e":victim,"v":"d9"})); }
-    if rng.chance(1, 3) { v.push(json!({"op":"addmem","r":stale,"g":5,"m":victim})); }
+    if rng.chance(1, 2) { v.push(json!({"op":"addmem","r":stale,"g":5,"m":victim})); }
     v.push(json!({"op":"delete","r":del,"e":victim}));
     if rng.chance(1, 3) { v.push(json!({"op":"repl","from":del,"to":stale})); }
     v.push(json!({"op":"advance","dt":604_801 + rng.below(1000)}));
     v.push(json!({"op":"purge_rec","r":del}));
     if rng.chance(1, 4) { v.push(json!({"op":"setdn","r":stale,"e":victim,"v":"d8"})); }
-    v.push(json!({"op":"advance","dt":604_801 + rng.below(100_000)}));
-    v.push(json!({"op":"purge_ts","r":del}));
+    // the changelog window passes and the tombstone is reaped (RUV trim) - or not yet
+    let trims = rng.chance(2, 3);
+    if trims {
+        v.push(json!({"op":"advance","dt":604_801 + rng.below(100_000)}));
+        v.push(json!({"op":"purge_ts","r":del}));
+    }
     // local writes on old entries after the trim
     for _ in 0..rng.range(1, 3) {
         let k = rng.below(3);
@@ -432,7 +436,48 @@ fn gen_lag_pattern(rng: &mut Rng, n: usize) -> Vec<J> {
         v.push(json!({"op":"repl","from":del,"to":stale}));
         v.push(json!({"op":"repl","from":stale,"to":del}));
     }
-    if rng.chance(1, 2) { v.push(json!({"op":"purge_ts","r":del})); }
+    if trims && rng.chance(1, 2) { v.push(json!({"op":"purge_ts","r":del})); }
+    v.push(json!({"op":"mesh"}));
+    v
+}
+
+/// Scripted conflict patterns with seeded variation (C19 / C08): the same uuid created on two replicas (add-conflict)
+/// while the unique name of one of the versions is also held by ANOTHER entry on the other side, renames into a taken
+/// name on both sides, and the exchanges in either order.
+fn gen_conflict_pattern(rng: &mut Rng, n: usize) -> Vec<J> {
+    let mut v = vec![json!({"op":"init","n":n})];
+    let a = NAMES[rng.below(n as u64) as usize];
+    let mut b = NAMES[rng.below(n as u64) as usize];
+    while b == a { b = NAMES[rng.below(n as u64) as usize]; }
+    let names = ["n1", "n2", "n3"];
+    let x = *rng.pick(&names);
+    let mut y = *rng.pick(&names);
+    while y == x { y = *rng.pick(&names); }
+    if rng.chance(1, 2) {
+        v.push(json!({"op":"create","r":a,"e":4,"name":"keep","kind":"person"}));
+        v.push(json!({"op":"mesh"}));
+    }
+    // a creates u1 named x; b creates the same uuid named y and (maybe) another entry named x
+    let mut ops = vec![
+        json!({"op":"create","r":a,"e":1,"name":x,"kind":"person"}),
+        json!({"op":"create","r":b,"e":1,"name":y,"kind":"person"}),
+    ];
+    match rng.below(3) {
+        0 => ops.push(json!({"op":"create","r":b,"e":2,"name":x,"kind":"person"})),
+        1 => { ops.push(json!({"op":"create","r":a,"e":2,"name":y,"kind":"person"})); }
+        _ => { ops.push(json!({"op":"create","r":b,"e":2,"name":"n9","kind":"person"}));
+               ops.push(json!({"op":"rename","r":b,"e":2,"name":x})); }
+    }
+    if rng.chance(1, 2) { ops.swap(0, 1); }
+    v.extend(ops);
+    if rng.chance(1, 3) { v.push(json!({"op":"setdn","r":a,"e":1,"v":"d3"})); }
+    if rng.chance(1, 2) {
+        v.push(json!({"op":"repl","from":a,"to":b}));
+        if rng.chance(1, 2) { v.push(json!({"op":"repl","from":b,"to":a})); }
+    } else {
+        v.push(json!({"op":"repl","from":b,"to":a}));
+        if rng.chance(1, 2) { v.push(json!({"op":"repl","from":a,"to":b})); }
+    }
     v.push(json!({"op":"mesh"}));
     v
 }
@@ -534,7 +579,12 @@ pub fn run(o: &Opts) -> i32 {
         scripts.extend(gen_script(&mut rng, n, len, &mode));
     }
     for h in 0..o.u64("patterns", 0) {
-        scripts.extend(gen_lag_pattern(&mut rng, if h % 3 == 2 { 3 } else { 2 }));
+        let n = if h % 3 == 2 { 3 } else { 2 };
+        if mode == "lifecycle" {
+            scripts.extend(gen_lag_pattern(&mut rng, n));
+        } else {
+            scripts.extend(gen_conflict_pattern(&mut rng, n));
+        }
     }
     rt.block_on(async {
         let mut w: Option<World> = None;
